@@ -36,7 +36,8 @@ func TestMain(m *testing.M) {
 		Rule: "store level: a rapid-generated primary history (stx configurations; kv metadata, tx metadata extra bytes / truncation marker, empty and max-length values, " +
 			"header v0 and v1 mixed by a primary restart, value-log truncation followed by a second export) is fed to 1-3 replica stores (own generated configuration, with and " +
 			"without external commit allowance, synced or not) by a harness-owned schedule: concurrent rounds from 1-4 goroutines (in order, shuffled, duplicated, with gaps, beyond the " +
-			"MaxActiveTransactions window, full or digest-only form), structure-aware alterations of the export delivered with integrity checks on and off, DiscardPrecommittedTxsSince, " +
+			"MaxActiveTransactions window, full or digest-only form), structure-aware alterations of the export (every length, count, flag, header field, key/value/metadata byte; forged chain links) " +
+			"delivered alone or racing with the honest export, with integrity checks on and off, DiscardPrecommittedTxsSince, " +
 			"AllowCommitUpto, close/reopen; every step is followed by the comparison of the replica with the primary. Database level: a primary with synchronous replication (1-3 acks) " +
 			"and 1-3 replica databases, the harness playing the replicator step by step while writers block in Set. " +
 			"NON-TRIVIAL (store level): the schedule of at least one replica contains >=1 out-of-order or duplicated delivery AND >=1 refused delivery followed by a successful catch-up; " +
@@ -121,6 +122,7 @@ type histGen struct {
 	cfg     *stx.Cfg
 	keyPool [][]byte
 	ctr     int
+	big     bool // mostly values of 60-300 bytes (histories that are truncated)
 }
 
 func (g *histGen) key(label string) []byte {
@@ -148,7 +150,14 @@ func (g *histGen) entry(i int) stx.Entry {
 	rt := g.rt
 	en := stx.Entry{Key: g.key(fmt.Sprintf("k%d", i))}
 	g.ctr++
-	switch rapid.IntRange(0, 11).Draw(rt, "vshape") {
+	vshape := rapid.IntRange(0, 11).Draw(rt, "vshape")
+	if g.big && vshape != 0 {
+		en.Value = bytes.Repeat([]byte{byte('a' + g.ctr%26)}, rapid.IntRange(60, 300).Draw(rt, "bigLen"))
+		copy(en.Value, fmt.Sprintf("v%d-", g.ctr))
+		vshape = -1
+	}
+	switch vshape {
+	case -1:
 	case 0, 1:
 		en.Value = []byte{}
 	case 2:
@@ -190,14 +199,28 @@ func genPrimary(rt *rapid.T, c *vk.Case) *primary {
 	p.cfg.ExternalAllow = false
 	truncate := !p.cfg.Embedded && rapid.IntRange(0, 2).Draw(rt, "truncation") == 0
 	if truncate {
+		// small chunks and values that fill them, so that whole chunks lie below the truncation point
 		p.cfg.FileSize = rapid.SampledFrom([]int{256, 512}).Draw(rt, "truncFileSize")
-		p.cfg.IOConc = 1 + rapid.IntRange(0, 1).Draw(rt, "truncIOConc")
+		p.cfg.IOConc = 1 + rapid.IntRange(0, 3).Draw(rt, "truncIOConc")/3
+		if p.cfg.MaxValueLen < 512 {
+			p.cfg.MaxValueLen = 512
+		}
+		if p.cfg.WriteBuf > 512 {
+			p.cfg.WriteBuf = 512 // with a write buffer larger than the history no chunk is ever written before the truncation
+		}
+		if rapid.IntRange(0, 2).Draw(rt, "truncNoValueCache") > 0 {
+			p.cfg.VLogCache = 0 // a cached value is exported in full even when its chunk is gone
+		}
 	}
 	maxTx := 12
 	if vk.Thorough() {
 		maxTx = 30
 	}
-	n := rapid.IntRange(2, maxTx).Draw(rt, "nTx")
+	minTx := 2
+	if truncate {
+		minTx = 5
+	}
+	n := rapid.IntRange(minTx, maxTx).Draw(rt, "nTx")
 	flipAt := -1
 	if rapid.IntRange(0, 2).Draw(rt, "mixVersions") == 0 {
 		flipAt = rapid.IntRange(1, n-1).Draw(rt, "flipAt")
@@ -211,7 +234,7 @@ func genPrimary(rt *rapid.T, c *vk.Case) *primary {
 		fail("open primary: %v", err)
 	}
 	p.hold = store.NewTx(p.cfg.MaxTxEntries, p.cfg.MaxKeyLen)
-	g := &histGen{rt: rt, cfg: &p.cfg}
+	g := &histGen{rt: rt, cfg: &p.cfg, big: truncate}
 	shape := ""
 	for i := 0; i < n; i++ {
 		if i == flipAt {
@@ -325,7 +348,7 @@ func short(b []byte) []byte {
 // transactions whose values are gone must come out in digest-only form, with the same header and hashes.
 func (p *primary) truncateAndReexport(rt *rapid.T, c *vk.Case) {
 	n := p.n()
-	m := uint64(rapid.IntRange(2, int(n)).Draw(rt, "truncateUpto"))
+	m := uint64(rapid.IntRange(3, int(n)).Draw(rt, "truncateUpto"))
 	if err := p.st.TruncateUptoTx(m); err != nil {
 		c.Label("truncation-error-(C14)")
 		return
@@ -364,6 +387,13 @@ func (p *primary) truncateAndReexport(rt *rapid.T, c *vk.Case) {
 		if err != nil {
 			c.Failf(rt, nil, "harness: cannot decode the export of tx %d after truncation: %v", id, err)
 		}
+		if os.Getenv("VERIF_C07_DEBUG") != "" {
+			sz := ""
+			for _, e := range t.x.entries {
+				sz += fmt.Sprintf("%d,", len(e.val))
+			}
+			fmt.Printf("  tx %d truncated=%v values=%s\n", id, x.truncated, sz)
+		}
 		if !x.truncated {
 			if !bytes.Equal(blob, t.full) {
 				c.Failf(rt, map[string]any{"before": fmt.Sprintf("%x", t.full), "after": fmt.Sprintf("%x", blob)},
@@ -386,6 +416,9 @@ func (p *primary) truncateAndReexport(rt *rapid.T, c *vk.Case) {
 		}
 		t.digest, t.dx = blob, x
 		nDigest++
+	}
+	if os.Getenv("VERIF_C07_DEBUG") != "" {
+		fmt.Printf("TRUNC n=%d m=%d digest=%d cfg=%s\n", n, m, nDigest, p.cfg)
 	}
 	if nDigest > 0 {
 		c.Label("digest-form-available")
